@@ -129,6 +129,12 @@ class Mps(MatrixProduct):
         mps.qn = [np.zeros((1, qn_size), dtype=int)]
         dim_list = [1]
 
+        # quantum numbers that the sites to the right of each bond can still contribute
+        reachable = [None] * model.nsite + [{(0,) * qn_size}]
+        for imps in reversed(range(model.nsite)):
+            sigmaqn = np.array(mps._get_sigmaqn(imps)).reshape(-1, qn_size)
+            reachable[imps] = {tuple(np.array(r) + s) for r in reachable[imps + 1] for s in sigmaqn}
+
         for imps in range(model.nsite - 1):
 
             # quantum number
@@ -139,6 +145,10 @@ class Mps(MatrixProduct):
 
             for iblock in set([tuple(t) for t in qnbig]):
                 if np.all(np.array(qntot) < np.array(iblock)):
+                    continue
+                # a block from which ``qntot`` can not be completed only wastes bond dimension,
+                # and if nothing else is kept the last site has no allowed element at all
+                if tuple(np.array(qntot) - np.array(iblock)) not in reachable[imps + 1]:
                     continue
                 # find the quantum number index
                 indices = [i for i, x in enumerate(qnbig) if tuple(x) == iblock]
